@@ -11,6 +11,16 @@ CHECKS = {
   "note": COMMON_NOTE + "Modelled not verified: float64 arithmetic of checkThreshold is taken as exact on the ranges used "
           "(argued in Model/Disk.lean, validated by the correspondence); uint64(x) for x >= 2^64 is excluded; statfs is not modelled.",
  },
+ "C12": {
+  "text": "Theorems over the sequential reactor model for every API history and token count: tokens in use = tracked seeds, no id "
+          "tracked twice, tokens <= configured; rejected feedback / finish have no side effect; a frozen or stopped reactor accepts "
+          "nothing; under the pipeline's client discipline no call ever blocks forever, every tracked seed is queued or held, a queued "
+          "seed is delivered after position+1 receives. Facts (operation order inside the API functions, capacities, priority check, "
+          "how feedback updates the table) are regenerated from reactor.go; API histories run against the real reactor (blocked calls "
+          "detected by goroutine state) and are compared with the model; concurrent stress runs check the accounting.",
+  "note": COMMON_NOTE + "Modelled not verified: Go channels/select/sync.Map and FIFO wake-up of parked senders; the theorems are about "
+          "one-call-at-a-time histories with parked calls; real interleavings inside a call are only sampled by the stress runs.",
+ },
 }
 
 _todo = "check not built yet in this session (work in progress; see DESIGN.md §4 for the planned model and theorems)"
